@@ -28,6 +28,7 @@ TV_HAS(has_strides_, std::declval<T&>().strides_)
 TV_HAS(has_offset_, std::declval<T&>().offset_)
 TV_HAS(has_a, std::declval<T&>().a)
 TV_HAS(has_ok, std::declval<T&>().ok)
+TV_HAS(has_tv_plain, std::declval<T&>().tv_plain)
 #undef TV_HAS
 
 template <class T> struct dependent_false : std::false_type {};
@@ -47,6 +48,9 @@ template <class R, class C> bool eq(const R& real, const C& raw)
 {
   if constexpr (std::is_arithmetic_v<C> || std::is_enum_v<C>) {
     return eq_scalar(real, raw);
+  } else if constexpr (has_tv_plain<C>::value) {                          // opt-in: plain observation struct (member `tv_plain`), same layout on both sides
+    static_assert(sizeof(R) == sizeof(C) && std::has_unique_object_representations_v<R>, "tv_plain struct must be padding-free integer data of equal size");
+    return std::memcmp(&real, &raw, sizeof(R)) == 0;
   } else if constexpr (has_has<C>::value && has_val<C>::value) {          // std::optional model
     if ((bool)real != (bool)raw.has) return false;
     if (!raw.has) return true;
